@@ -270,11 +270,11 @@ func init() {
 	reg(propSpec{
 		ID: "C03",
 		Harnesses: []harnessSpec{
-			{Pkg: "bkl", Func: "HarnessC03_chain", Tiers: "qt", Covers: []string{"chain.accepted", "chain.rejected"},
+			{Pkg: "bkl", Func: "HarnessC03_chain", Tiers: "qt", Samples: 16, Covers: []string{"chain.accepted", "chain.rejected"},
 				Bound: "chains a, a.b, a.b.c (thorough: a.b.c.d) - or names that are string-suffixes of one another with one extension (a, a.a, a.a.a; b, a.b, c.a.b) - with 1-3 (4) layers, each file under any supported extension (quick: two per file, rotating), contents {v: any scalar, k_i: i}; the same contents as x, y, z wired by $parent; both equal the explicit base-first MergeDocument fold (outputs and error status)"},
 			{Pkg: "bkl", Func: "HarnessC03_missing", Tiers: "qt", Covers: []string{"missing.checked"},
 				Bound: "any one non-top layer of a 2-3 layer chain missing; a $parent naming no file"},
-			{Pkg: "bkl", Func: "HarnessC03_parentforms", Tiers: "qt", Covers: []string{"forms.none", "forms.list", "forms.wildcard", "forms.invalid"},
+			{Pkg: "bkl", Func: "HarnessC03_parentforms", Tiers: "qt", Samples: 16, Covers: []string{"forms.none", "forms.list", "forms.wildcard", "forms.invalid"},
 				Bound: "$parent false/null on a dotted file name, a list of two, a wildcard p.* with a deeper p.two.deep present, $parent: true, conflicting directives in one file"},
 			{Pkg: "bkl", Func: "HarnessC03_multi", Tiers: "qt", Covers: []string{"multi.checked"},
 				Bound: "two inputs applied left to right (sequential MergeFileLayers)"},
@@ -289,9 +289,9 @@ func init() {
 	reg(propSpec{
 		ID: "C18",
 		Harnesses: []harnessSpec{
-			{Pkg: "bkl", Func: "HarnessC18_root", Tiers: "qt", Covers: []string{"root.inside", "root.escape"},
-				Bound: "root /w/root with a decoy layer outside it; 8 ways to reach for it ($parent with .., absolute $parent, input symlink, file-name parent symlink, directory symlink, chained symlinks, absolute symlink target, and a control that stays inside) x 4 root spellings (relative, with ./.. segments, absolute, nested SetRoot calls); three-fold self-composition: decoy content D1, content D2 (symbolic), decoy absent -> same status and output; every escape fails; no content obtained from outside the root"},
-			{Pkg: "bkl", Func: "HarnessC18_nested", Tiers: "qt", Covers: []string{"nested.widen", "nested.narrow"},
+			{Pkg: "bkl", Func: "HarnessC18_root", Tiers: "qt", Samples: 40, Covers: []string{"root.inside", "root.escape"},
+				Bound: "root /w/root with a decoy layer outside it; 11 ways to reach for it ($parent with .., absolute $parent, input symlink, file-name parent symlink, directory symlink, chained symlinks, absolute symlink target, $parent list mixing inside and outside, wildcard $parent reaching out, a parent in a sub-directory referring up and out, and a control that stays inside) x 5 root spellings (relative, with ./.. segments, absolute, nested SetRoot calls, through a symlink to the root); three-fold self-composition: decoy content D1, content D2 (symbolic), decoy absent -> same status and output; every escape fails; no content obtained from outside the root"},
+			{Pkg: "bkl", Func: "HarnessC18_nested", Tiers: "qt", Samples: 6, Covers: []string{"nested.widen", "nested.narrow"},
 				Bound: "after SetRoot(root): a second SetRoot to the parent (., .., absolute), through directory symlinks leaving the root (root/up -> .., root/far -> ../elsewhere) must fail and leave the parser confined; narrowing to root/sub works and confines to it; decoy present/absent self-composition"},
 		},
 		Assume:  vfsAssume,
@@ -300,7 +300,7 @@ func init() {
 	reg(propSpec{
 		ID: "C20",
 		Harnesses: []harnessSpec{
-			{Pkg: "wrapper", Func: "HarnessC20_args", Tiers: "qt", Covers: []string{"wrap.passthrough", "wrap.replaced", "wrap.evalfails", "wrap.notfound"},
+			{Pkg: "wrapper", Func: "HarnessC20_args", Tiers: "qt", Samples: 16, Covers: []string{"wrap.passthrough", "wrap.replaced", "wrap.evalfails", "wrap.notfound"},
 				Bound: "1-3 (quick) / 0-4 (thorough) arguments, each a flag, --opt=value, word, existing non-bkl file, existing layer file, virtual name with another supported extension, supported extension without a layer, a layer whose evaluation fails, or EVERY alphanumeric name of <= 2 bytes (optionally + .toml) that names no layer; wrapped program found on PATH or not; observed at syscall.Exec"},
 		},
 		Assume: append([]string{
